@@ -223,7 +223,18 @@ def main(argv=None):
         by_key.setdefault(c.get("key", c.get("label", "?")), []).append(c)
     to_replay = []
     for k, lst in by_key.items():
-        to_replay += lst[:4]
+        # up to 4 witnesses per key, spread over the instances that produced them (a family whose witnesses do not reproduce
+        # must not use up the replays of another family)
+        per_inst = {}
+        for c in lst:
+            per_inst.setdefault(c.get("instance"), []).append(c)
+        picked, rnd = [], 0
+        while len(picked) < 4 and any(len(v) > rnd for v in per_inst.values()):
+            for v in per_inst.values():
+                if len(v) > rnd and len(picked) < 4:
+                    picked.append(v[rnd])
+            rnd += 1
+        to_replay += picked
     rres = run_replays(pid, to_replay, "replay")
     violations, known_hits, not_reproduced = [], {}, []
     os.makedirs(REPLAYS, exist_ok=True)
@@ -281,7 +292,7 @@ def main(argv=None):
             "solver_ms": round(solver_ms), "solver_queries": agg["branch_checks"] + agg["obligations"],
             "instances": len(insts), "per_instance": per_instance[:200],
             "witnesses_replayed": len(to_replay), "witnesses_reproduced": len(violations) + len(known_hits),
-            "witnesses_not_reproduced": len(not_reproduced),
+            "witnesses_not_reproduced": len(not_reproduced), "witnesses_not_reproduced_details": not_reproduced[:12],
             "known_findings_seen": sorted(known_hits), "validation_mismatches": len(v_bad),
             "functions_encoded": getattr(mod, "functions_encoded", lambda: getattr(mod, "FUNCTIONS", []))(),
             "bounds": getattr(mod, "BOUNDS", {}).get(tier, getattr(mod, "BOUNDS", {})),
